@@ -208,8 +208,9 @@ PLAN = {
               "(Verus, unbounded loop invariant): read returns exactly mem[pos..pos+n), n = min(len, window left), never beyond the window; the dependency's read_exact on top of it; "
               "SubDeviceEeprom::start_at (window = length rounded up to a word), size (from word 0x3e), category (walk with termination measure); find_string's body from the count byte "
               "to the raw bytes as one fragment: None iff index >= count, otherwise exactly the bytes stored for that string (offset = sum of the preceding length bytes), refused "
-              "as too long only when really longer than the destination (a string of exactly the capacity is delivered); category: Some(range) is the data window (start "
-              "right after the 2-word header, length from the header) of a header of the requested type; identity / mailbox_config / general decode exactly the 16 / 10 / 18 "
+              "as too long only when really longer than the destination (a string of exactly the capacity is delivered); category, BOTH directions: the result is Some(window of header h) iff the walk over the stored chain (unknown categories "
+              "skipped by their length word, End marker, the documented give-up after 32 empty categories or at the end of the 64 Ki word space) finds a header of the requested "
+              "type, h being the FIRST such header - a present category is never reported missing; identity / mailbox_config / general decode exactly the 16 / 10 / 18 "
               "bytes at word 0x0008 / word 0x0018 / the start of the General category; CategoryIterator::{next, next_sub_item}: an item is decoded from exactly the next "
               "PACKED_LEN bytes of the window; pdos: a PDO's bit length is the sum over exactly its num_entries entries (<= 255 each)",
         note="provider (hardware) contract assumed: read_chunk(w) returns mem[2w..2w+k], k in {4,8}; find_string's NUL removal / non-ASCII replacement (iterator adapters) and the "
